@@ -215,6 +215,55 @@ package queue
 //@   ensures [errors] result == nil || result == ErrQueueFull || result == ErrMemoryPressure || result == ErrEnvelopeExists
 //@   ensures [leases_unchanged] forall l string :: ((l in s.leases) <==> at(P, l in s.leases)) && s.leases[l] == at(P, s.leases[l])
 
+//@ spec
+//@ pred preparedOK(e *Envelope, env Envelope, now time.Time) := e != nil && fresh(e) && allocated(e) && e.ID != "" && (env.ID != "" ==> e.ID == env.ID) && storedAs(e, env, now) && e.State != StateLeased && validState(e.State) && e.Attempt >= 0
+
+//@ func (*MemoryStore).EnqueueBatch
+//@   requires s != nil && forall k int :: 0 <= k && k < len(items) ==> enqueueable(items[k])
+//@   stable items[*]
+//@   label P after call maybePruneLocked
+//@   modifies s.items, s.leases, s.lastPrune, s.evictionsTotalByReason, field(s.evictionsTotalByReason), s.order, s.notify, s.memoryPressureRejects, storeNow, lastEvicted
+//@   loop 1 invariant [queue_untouched] forall id string :: ((id in s.items) <==> at(P, id in s.items)) && s.items[id] == at(P, s.items[id])
+//@   loop 1 invariant [one_copy_per_item] rangeindex < len(items) && len(prepared) == rangeindex + 1
+//@   loop 1 invariant [copies_fresh] forall k int :: 0 <= k && k < len(prepared) ==> prepared[k] != nil && fresh(prepared[k]) && allocated(prepared[k])
+//@   loop 1 invariant [copies_ids] forall k int :: 0 <= k && k < len(prepared) ==> prepared[k].ID != "" && (items[k].ID != "" ==> prepared[k].ID == items[k].ID)
+//@   loop 1 invariant [copies_stored_as] forall k int :: 0 <= k && k < len(prepared) ==> storedAs(prepared[k], items[k], now)
+//@   loop 1 invariant [copies_not_leased] forall k int :: 0 <= k && k < len(prepared) ==> prepared[k].State != StateLeased
+//@   loop 1 invariant [copies_valid_state] forall k int :: 0 <= k && k < len(prepared) ==> validState(prepared[k].State)
+//@   loop 1 invariant [copies_attempt] forall k int :: 0 <= k && k < len(prepared) ==> prepared[k].Attempt >= 0
+//@   loop 1 invariant [copies_absent_and_seen] forall k int :: 0 <= k && k < len(prepared) ==> !(prepared[k].ID in s.items) && prepared[k].ID in seenIDs
+//@   loop 1 invariant [seen_is_the_ids_so_far] forall id string :: id in seenIDs ==> exists k int :: 0 <= k && k < len(prepared) && prepared[k].ID == id
+//@   loop 1 invariant [ids_distinct] forall j int, k int :: 0 <= j && j < k && k < len(prepared) ==> prepared[j].ID != prepared[k].ID
+//@   loop 2 invariant [wf] wf(s)
+//@   loop 2 invariant [policy] i >= 0 && (drop > 0 ==> s.dropPolicy == "drop_oldest" && s.maxDepth > 0)
+//@   loop 2 invariant [no_new] forall id string :: id in s.items ==> at(P, id in s.items) && s.items[id] == at(P, s.items[id])
+//@   loop 2 invariant [victims_queued] forall id string :: at(P, id in s.items) && !(id in s.items) ==> at(P, s.items[id].State) == StateQueued && drop > 0
+//@   loop 2 invariant [leases] forall l string :: ((l in s.leases) <==> at(P, l in s.leases)) && s.leases[l] == at(P, s.leases[l])
+//@   loop 3 invariant [bounds] rangeindex < len(prepared)
+//@   loop 3 invariant [committed_prefix] forall k int :: 0 <= k && k <= rangeindex ==> prepared[k].ID in s.items && s.items[prepared[k].ID] == prepared[k]
+//@   loop 3 invariant [pending_suffix] forall k int :: rangeindex < k && k < len(prepared) ==> !(prepared[k].ID in s.items)
+//@   loop 3 invariant [others_as_after_eviction] forall id string :: id in s.items ==> (at(P, id in s.items) && s.items[id] == at(P, s.items[id])) || (exists k int :: 0 <= k && k <= rangeindex && prepared[k].ID == id)
+//@   loop 3 invariant [victims_queued] forall id string :: at(P, id in s.items) && !(id in s.items) ==> at(P, s.items[id].State) == StateQueued && drop > 0
+//@   loop 3 invariant [old_items_kept] forall id string :: at(P, id in s.items) && id in s.items ==> s.items[id] == at(P, s.items[id])
+//@   loop 3 invariant [leases] forall l string :: ((l in s.leases) <==> at(P, l in s.leases)) && s.leases[l] == at(P, s.leases[l])
+//@   loop 3 invariant [wf_J0] J0(s)
+//@   loop 3 invariant [wf_J1] J1(s)
+//@   loop 3 invariant [wf_J2] J2(s)
+//@   loop 3 invariant [wf_J3a] J3a(s)
+//@   loop 3 invariant [wf_J3b] J3b(s)
+//@   loop 3 invariant [wf_J4] J4(s)
+//@   loop 3 invariant [wf_J5] J5(s)
+//@   loop 3 invariant [wf_J6] J6(s)
+//@   loop 3 invariant [wf_J7] J7(s)
+//@   ensures [C15:refused_batch_leaves_queue_unchanged] result1 != nil ==> result0 == 0 && forall id string :: ((id in s.items) <==> at(P, id in s.items)) && s.items[id] == at(P, s.items[id])
+//@   ensures [C15:accepted_batch_stores_every_item] result1 == nil && len(items) > 0 ==> result0 == len(items) && forall k int :: 0 <= k && k < len(items) && items[k].ID != "" ==> items[k].ID in s.items && !at(P, items[k].ID in s.items) && storedAs(s.items[items[k].ID], items[k], storeNow)
+//@   ensures [C02:survivors_untouched] len(items) > 0 ==> forall id string :: at(P, id in s.items) && id in s.items ==> s.items[id] == at(P, s.items[id]) && sameSince(P, s.items[id])
+//@   ensures [C12:evicts_only_queued] len(items) > 0 ==> forall id string :: at(P, id in s.items) && !(id in s.items) ==> at(P, s.items[id].State) == StateQueued && s.dropPolicy == "drop_oldest" && s.maxDepth > 0 && result1 == nil
+//@   ensures [C15:duplicate_in_queue_or_batch_refused] len(items) > 0 && (exists k int :: 0 <= k && k < len(items) && items[k].ID != "" && at(P, items[k].ID in s.items)) ==> result1 != nil
+//@   ensures [errors] result1 == nil || result1 == ErrQueueFull || result1 == ErrMemoryPressure || result1 == ErrEnvelopeExists
+//@   ensures [empty_batch_is_a_noop] len(items) == 0 ==> result0 == 0 && result1 == nil && viewUnchanged(s)
+//@   ensures [leases_unchanged] len(items) > 0 ==> forall l string :: ((l in s.leases) <==> at(P, l in s.leases)) && s.leases[l] == at(P, s.leases[l])
+
 //@ func cloneStringMap
 //@   loop 1 invariant [copied] forall k string :: k in visited ==> k in out && out[k] == in[k]
 //@   loop 1 invariant [only] forall k string :: k in out ==> k in in && out[k] == in[k]
